@@ -779,6 +779,7 @@ def cert_rows(ck: Ck, side: dict, eside: dict) -> None:
         'EntityFixup_copy_values': ('EntityFixup', lambda o: U.EntityFixup(o.copy_values())),
         'EntityFixup_copy': ('EntityFixup', lambda o: _copy.copy(o)),
         'EntityFixup_deepcopy': ('EntityFixup', lambda o: _copy.deepcopy(o)),
+        'EntityFixup_pickle': ('EntityFixup', lambda o: pickle.loads(pickle.dumps(o))),
         'Keyvalues_deepcopy': ('Keyvalues', lambda o: _copy.deepcopy(o)),
         'Keyvalues_pickle': ('Keyvalues', lambda o: pickle.loads(pickle.dumps(o))),
     }
@@ -911,6 +912,7 @@ def corr_census_runtime(ck: Ck, side: dict, unfresh: tuple = ()) -> None:
         'EntityFixup_copy_values': ('EntityFixup', lambda o, m: U.EntityFixup(o.copy_values())),
         'EntityFixup_copy': ('EntityFixup', lambda o, m: _copy.copy(o)),
         'EntityFixup_deepcopy': ('EntityFixup', lambda o, m: _copy.deepcopy(o)),
+        'EntityFixup_pickle': ('EntityFixup', lambda o, m: pickle.loads(pickle.dumps(o))),
         'Keyvalues_deepcopy': ('Keyvalues', lambda o, m: _copy.deepcopy(o)),
         'Keyvalues_pickle': ('Keyvalues', lambda o, m: pickle.loads(pickle.dumps(o))),
     }
@@ -994,6 +996,7 @@ def corr_flows_runtime(ck: Ck, side: dict) -> None:
     makers: dict[str, tuple[str, Any]] = {
         'EntityFixup_copy': ('EntityFixup', lambda o: _copy.copy(o)),
         'EntityFixup_deepcopy': ('EntityFixup', lambda o: _copy.deepcopy(o)),
+        'EntityFixup_pickle': ('EntityFixup', lambda o: pickle.loads(pickle.dumps(o))),
         'Keyvalues_deepcopy': ('Keyvalues', lambda o: _copy.deepcopy(o)),
         'Keyvalues_pickle': ('Keyvalues', lambda o: pickle.loads(pickle.dumps(o))),
     }
